@@ -744,6 +744,9 @@ impl Check for C10 {
         ]
     }
 
+    fn devopt_scale(&self) -> Option<f64> {
+        Some(0.05)
+    }
     fn explore(&self, cli: &Cli, st: &mut Stats) {
         let nthreads = cli.threads;
         // ---- (b) exhaustive ----
